@@ -49,6 +49,11 @@ var witnesses = []witness{
 	{name: "finding-const-signed-widening", defect: "const_signed_widening", nzArg: -1, tys: []*Ty{tInt(40)},
 		src: "package main\nfunc main(a int40) (int40, int40) {\n\treturn a & 0xffffffff, a & int40(0xffffffff)\n}\n",
 		sx:  "( P 0 ( FN 2 ( ( a i40 ) ) ( ( R ( B and ( V a ) ( L i40 4294967295 ) ) ( B and ( V a ) ( L i40 4294967295 ) ) ) ) ) )"},
+	// guard: a positive literal >= 2^31 against a wider signed operand must stay positive (the narrower constant is
+	// ZERO-padded by the comparator/divider builders; sign-extending it there would break this: the constant has no sign)
+	{name: "guard-literal-topbit-vs-wider-signed", nzArg: -1, tys: []*Ty{tInt(40)},
+		src: "package main\nfunc main(a int40) (bool, int40) {\n\treturn a > 3000000000, a / 4000000000\n}\n",
+		sx:  "( P 0 ( FN 2 ( ( a i40 ) ) ( ( R ( B gt ( V a ) ( L i40 3000000000 ) ) ( B div ( V a ) ( L i40 4000000000 ) ) ) ) ) )"},
 	{name: "repaired-const-left-unsigned", nzArg: -1, tys: []*Ty{tUint(32)},
 		src: "package main\nfunc main(a uint32) (bool, bool) {\n\treturn 100 < a, a > 100\n}\n",
 		sx:  "( P 0 ( FN 2 ( ( a u32 ) ) ( ( R ( B lt ( L u32 100 ) ( V a ) ) ( B gt ( V a ) ( L u32 100 ) ) ) ) ) )"},
@@ -94,11 +99,13 @@ var witnesses = []witness{
 }
 
 func modeWitness(args []string) {
-	var srcs string
+	var srcs, ssaPath string
 	cf, o := hxlib.ParseCommon("witness", args, func(fs *flag.FlagSet) {
 		fs.StringVar(&srcs, "srcs", "", "sidecar file")
+		fs.StringVar(&ssaPath, "ssaops", "", "SSA-level op lines (one per case)")
 	})
 	defer o.Close()
+	defer openSSAOps(ssaPath)()
 	sc := &sidecar{}
 	if srcs != "" {
 		sc.f, _ = os.Create(srcs)
